@@ -10,6 +10,7 @@ import WebpVerif.Lemmas.Vp8Tok
 import WebpVerif.Model.Vp8Quant
 import WebpVerif.Spec.Vp8QuantSpec
 import WebpVerif.Lemmas.Vp8LF
+import WebpVerif.Lemmas.Vp8Intra
 
 /-!
 # C02 — VP8 key-frame reconstruction is bit-exact
@@ -116,6 +117,27 @@ example : Vp8Quant.factors false false 0 0 0 0 0 0 0 = [4, 4, 8, 8, 4, 4] ∧
 theorem filter_driver_is_reference (isSimple : Bool) (level il hev : Nat) (inner : Bool) (W CW mbx mby : Nat) (p : Vp8LF.Planes) :
     Vp8LF.filterMb isSimple level il hev inner W CW mbx mby p = LibwebpLF.doFilter isSimple level il hev inner W CW mbx mby p :=
   Vp8LFProof.filterMb_is_doFilter isSimple level il hev inner W CW mbx mby p
+
+
+/-! ### residue addition -/
+
+/-- **`add_residue` is `clamp(prediction + residue)`.** For every workspace, residue block (any
+    integers), block position and stride that leaves room for the block: each of the sixteen
+    samples of the block becomes the sum of the predicted sample and its residue clamped to 0..255
+    (RFC 6386 section 14.5), and every other sample of the workspace - borders, other blocks - is
+    left as it was.  `Vp8Intra.addResidue` is the model of `add_residue` inside `Vp8Intra.predictMb`,
+    tied to `intra_predict_luma` / `intra_predict_chroma` through hook 0765b56. -/
+theorem add_residue_is_clamp (ws : Array Nat) (rb : Array Int) (y0 x0 stride : Nat) (hs : x0 + 4 ≤ stride) :
+    (Vp8Intra.addResidue ws rb y0 x0 stride).size = ws.size ∧
+    (∀ k, k < 16 → Vp8IntraProof.cell y0 x0 stride k < ws.size →
+      ((Vp8Intra.addResidue ws rb y0 x0 stride).getD (Vp8IntraProof.cell y0 x0 stride k) 0 : Int) =
+        (let v := rb.getD k 0 + (ws.getD (Vp8IntraProof.cell y0 x0 stride k) 0 : Int); if v < 0 then 0 else if v > 255 then 255 else v)) ∧
+    (∀ q, (∀ k, k < 16 → Vp8IntraProof.cell y0 x0 stride k ≠ q) → (Vp8Intra.addResidue ws rb y0 x0 stride).getD q 0 = ws.getD q 0) := by
+  obtain ⟨h1, h2, h3⟩ := Vp8IntraProof.addResidue_spec ws rb y0 x0 stride hs
+  refine ⟨h1, ?_, h3⟩
+  intro k hk hlt
+  rw [h2 k hk hlt]
+  exact Vp8IntraProof.clampByte_spec _
 
 /-! ### loop-filter kernels = RFC 6386 section 15 -/
 
